@@ -41,9 +41,9 @@ V6Cases ==
 \cup {[k |-> "ipv6", left |-> <<g, "2", "3", "4", "5", "6", "7", h>>, right |-> <<>>, dc |-> FALSE, tail |-> "none", scope |-> "none"] :
        g \in Groups, h \in Groups}
 \cup {[k |-> "ipv6", left |-> <<"fe80">>, right |-> <<"1">>, dc |-> TRUE, tail |-> "none", scope |-> s] :
-       s \in {"none", "empty", "1", "15", "16", "17"}}
+       s \in {"none", "empty", "1", "15", "16", "17", "two_percent", "double_percent"}}
 \cup {[k |-> "ipv6", left |-> <<"1", "2", "3", "4", "5", "6", "7", "8">>, right |-> <<>>, dc |-> FALSE, tail |-> "none", scope |-> s] :
-       s \in {"none", "empty", "1", "15", "16"}}
+       s \in {"none", "empty", "1", "15", "16", "two_percent", "double_percent"}}
 V6Width(x) == Len(x.left) + Len(x.right) + (IF x.tail = "none" THEN 0 ELSE 2)
 V6Valid(x) ==
   /\ \A i \in 1..Len(x.left) : GroupOK(x.left[i]) \/ x.left[i] \in {"fe80", "2", "3", "4", "5", "6", "7", "8"}
@@ -59,7 +59,8 @@ PrefixNum(p) == CASE p = "0" -> 0 [] p = "1" -> 1 [] p = "8" -> 8 [] p = "08" ->
                   [] p = "32" -> 32 [] p = "33" -> 33 [] p = "64" -> 64 [] p = "127" -> 127 [] p = "128" -> 128
                   [] p = "129" -> 129 [] p = "999" -> 999 [] OTHER -> -1
 CidrCases == {[k |-> "cidr", fam |-> f, addr |-> a, slashes |-> s, prefix |-> p, extra |-> e] :
-                f \in {4, 6}, a \in {"ok", "ok_hostbits", "bad"}, s \in {0, 1, 2}, p \in Prefixes,
+                \* ok_longest: the longest spelling an address has (IPv6: six full groups and a full-width dotted quad, 45 characters)
+                f \in {4, 6}, a \in {"ok", "ok_hostbits", "ok_longest", "bad"}, s \in {0, 1, 2}, p \in Prefixes,
                 e \in {"", "0", "8"}}
 CidrValid(x) == /\ x.addr # "bad" /\ x.slashes = 1 /\ x.prefix # ""
                 /\ PrefixNum(x.prefix) >= 0 /\ PrefixNum(x.prefix) <= (IF x.fam = 4 THEN 32 ELSE 128)
